@@ -116,6 +116,22 @@ func init() {
 			g := c.L("gen")
 			cfg := c.L("cfg")
 			probe := drawOp(c, g, true)
+			// sometimes the history also holds hundreds of tiny files with zone offsets the process
+			// has not seen (enough to fill whatever the library keeps per offset), and the probe is
+			// one more such file
+			flood, floodStyle, floodSeed := 0, 0, uint64(0)
+			var floodTmpl []byte
+			var floodAt [3]int
+			if fl := c.L("cfg:x"); fl.Chance(1, 10) {
+				flood = []int{345, 400, 750, 120}[fl.Intn(4)]
+				floodStyle, floodSeed = []int{1, 1, 3, 4}[fl.Intn(4)], fl.U64()
+				floodTmpl, floodAt = zoneTemplate(fl)
+				if fl.Chance(2, 3) {
+					probe = &opCase{data: zoneFile(floodTmpl, floodAt, floodStyle, floodSeed, flood+7), name: "zone-tiff", trunc: -1,
+						e: harness.EntryByName([]string{"Decode", "DecodeTiff", "exif2.Parse"}[fl.Intn(3)])}
+				}
+				c.Inc("fault:history-floods-the-zone-cache:configured")
+			}
 			nh := cfg.Intn(7)
 			var hist, later []*opCase
 			for i := 0; i < nh; i++ {
@@ -177,6 +193,16 @@ func init() {
 					harness.GCOnly()
 					c.Inc("fault:gc:fired")
 				}
+			}
+			if flood > 0 {
+				fe := harness.EntryByName("DecodeTiff")
+				harness.SkipCanon = true
+				for i := 0; i < flood; i++ {
+					d := zoneFile(floodTmpl, floodAt, floodStyle, floodSeed, i)
+					c.Dev.Budget = c.Dev.Seq + tickBudget(len(d))
+					harness.Invoke(fe, &harness.Env{}, newReader(c.Dev, d, Fault{}, Delivery{}))
+				}
+				harness.SkipCanon = false
 			}
 			harness.SetResidue(res, resSeed)
 			c.Inc("fault:residue(" + harness.ResNames[res] + "):configured")
